@@ -13,10 +13,21 @@ def run(cmd, cwd=None, timeout=1800):
 patch = os.path.join(sdir, 'patch.diff')
 demo = os.path.join(sdir, 'demo_test.go')
 meta = {"property": prop, "name": name, "tier_run": tier}
+old_meta_path = f'/verif/seeded/{name}/meta.json'
+if skip_confirm and os.path.exists(old_meta_path):
+    old = json.load(open(old_meta_path))
+    for k in ('compiles', 'suite_passes_with_change', 'demo_fails_with_change', 'demo_passes_without_change'):
+        if k in old: meta[k] = old[k]
+    if 'detected' in old and 'first_run_detected' not in old:
+        meta['first_run_detected'] = old['detected']
+    elif 'first_run_detected' in old:
+        meta['first_run_detected'] = old['first_run_detected']
+    ran = [r for r in old.get('what_i_ran', []) if 'check' not in r]
+ran = []
 notes = open(os.path.join(sdir, 'notes.txt')).read() if os.path.exists(os.path.join(sdir, 'notes.txt')) else ''
 meta["needs_to_manifest"] = notes.strip()
-ran = []
 if not skip_confirm:
+    ran = []
     wt = f'/tmp/wt_confirm_{name}'
     run(f'git -C /repo worktree remove --force {wt}')
     rc, out = run(f'git -C /repo worktree add -q {wt} HEAD'); assert rc == 0, out
